@@ -490,6 +490,44 @@ Proof.
     cbn [runs]. rewrite sop_ok_setvar; [reflexivity| |exact HRng]. intro HS. apply (HG n y ER HS).
 Qed.
 
+(* l[i] = e: the value, the container, the index, OpSetIndex (pops three) *)
+Lemma sop_ok_setindex nc gc k : sop_ok nc gc (SetIndex, 0) (k + 3) = Some k.
+Proof.
+  unfold sop_ok. cbn [is_sl negb has_operand andb simple_effect].
+  change (0 <? 65536) with true. change (0 =? 0) with true. cbn [negb andb].
+  destruct (k + 3 <? 3) eqn:E0; [apply N.ltb_lt in E0; lia|]. f_equal. lia.
+Qed.
+
+Lemma ctl_store l i e st st' : efrag l = true -> efrag i = true -> efrag e = true ->
+  compile_stmt true (SAssign (EIndex l i) e) st = COk st' -> Inv (csym st) -> has_gbw (csym st) -> CTL st st'.
+Proof.
+  intros HFl HFi HFe HC HI HGB. cbn [compile_stmt] in HC.
+  destruct (compile_expr true e st) as [st1|] eqn:E1; [|discriminate]. cbn [bind] in HC.
+  apply bind_ok in HC. destruct HC as (st3 & HC3 & HC). apply bind_ok in HC3. destruct HC3 as (st2 & E2 & E3).
+  destruct (expr_piece e st st1 HFe E1 HGB) as (S1 & B1 & ops1 & newc1 & NE1 & A1 & C1 & K1 & R1 & L1).
+  assert (HGB1 : has_gbw (csym st1)) by (rewrite S1; exact HGB).
+  destruct (expr_piece l st1 st2 HFl E2 HGB1) as (S2 & B2 & ops2 & newc2 & NE2 & A2 & C2 & K2 & R2 & L2).
+  assert (HGB2 : has_gbw (csym st2)) by (rewrite S2; exact HGB1).
+  destruct (expr_piece i st2 st3 HFi E3 HGB2) as (S3 & B3 & ops3 & newc3 & NE3 & A3 & C3 & K3 & R3 & L3).
+  pose proof (emit_enc0 SetIndex _ _ eq_refl HC) as ->. cbn [csym ccode cconsts cbreaks].
+  apply (CTL_straight st _ (ops1 ++ ops2 ++ ops3 ++ [(SetIndex, 0)]) (newc1 ++ newc2 ++ newc3)); cbn [csym ccode cconsts cbreaks].
+  - apply SX_eq. congruence.
+  - congruence.
+  - unfold solid. rewrite !map_app. apply aok_app; [exact A1|]. apply aok_app; [exact A2|]. apply aok_app; [exact A3|].
+    constructor; [cbn; lia|constructor].
+  - rewrite !encode_app, encode_one, C3, C2, C1, <- !app_assoc. reflexivity.
+  - rewrite K3, K2, K1, <- !app_assoc. reflexivity.
+  - intros lc HLc. rewrite S3, S2, S1 in HLc. pose proof (inv_lbw _ _ HI HLc) as HLB.
+    apply Forall_app. split; [apply L1; exact HLB|]. apply Forall_app. split; [apply L2; rewrite S1; exact HLB|].
+    apply Forall_app. split; [apply L3; rewrite S2, S1; exact HLB|].
+    constructor; [apply lopk_nonlocal; reflexivity|constructor].
+  - intros nc gc k Hnc HG. rewrite K3, K2, !app_length in Hnc.
+    eapply runs_app; [apply (R1 nc gc k); [lia|exact HG]|].
+    eapply runs_app; [apply (R2 nc gc (k + 1)); [rewrite K2, app_length; lia|rewrite S1; exact HG]|].
+    eapply runs_app; [apply (R3 nc gc (k + 1 + 1)); [rewrite K3, K2, !app_length; lia|rewrite S2, S1; exact HG]|].
+    cbn [runs]. replace (k + 1 + 1 + 1) with (k + 3) by lia. rewrite sop_ok_setindex. reflexivity.
+Qed.
+
 (* x := e inside a block: x becomes a local of the block's scope *)
 Lemma ctl_decl n e st st' : efrag e = true ->
   compile_stmt true (SDecl n e) st = COk st' -> outers (csym st) <> [] -> Inv (csym st) -> has_gbw (csym st) -> CTL st st'.
@@ -1349,6 +1387,7 @@ Fixpoint cfrag_stmt (s : stmt) : bool :=
   match s with
   | SDecl _ e => efrag e
   | SAssign (EVar _) e => efrag e
+  | SAssign (EIndex l i) e => efrag l && efrag i && efrag e     (* element stores: a[i] = e, m[k] = e *)
   | SEmpty | SBreak => true
   | SIf c b elifs els =>
       efrag c && cfrag_slist b && cfrag_clist elifs &&
@@ -1510,7 +1549,9 @@ Proof.
   apply stmt_mutind.
   - (* SDecl *) intros n e HF st st' HC HO HG HGB. apply (ctl_decl n e st st' HF HC (HO eq_refl) HG HGB).
   - (* SAssign *) intros target e HF st st' HC _ HG HGB. destruct target; try discriminate HF.
-    apply (ctl_assign n e st st' HF HC HG HGB).
+    + apply (ctl_assign n e st st' HF HC HG HGB).
+    + cbn [cfrag_stmt] in HF. apply andb_true_iff in HF. destruct HF as [HF F3]. apply andb_true_iff in HF. destruct HF as [F1 F2].
+      apply (ctl_store target1 target2 e st st' F1 F2 F3 HC HG HGB).
   - (* SIf *) intros c b Hb elifs He els Ho HF st st' HC _ HG HGB. cbn [cfrag_stmt] in HF.
     apply andb_true_iff in HF. destruct HF as [HF F4]. apply andb_true_iff in HF. destruct HF as [HF F3].
     apply andb_true_iff in HF. destruct HF as [F1 F2].
